@@ -12,6 +12,7 @@ package kv
 import (
 	"context"
 	"encoding/binary"
+	"sync"
 
 	atomicx "github.com/synnaxlabs/x/atomic"
 	"github.com/synnaxlabs/x/errors"
@@ -24,6 +25,9 @@ import (
 type AtomicInt64Counter struct {
 	db  Writer
 	key []byte
+	// mu keeps the writes to storage in the order of the changes they flush, so that
+	// the stored value is never behind a value that was handed out.
+	mu sync.Mutex
 	atomicx.Int64Counter
 }
 
@@ -45,6 +49,8 @@ func OpenCounter(ctx context.Context, db ReadWriter, key []byte) (*AtomicInt64Co
 // Add increments the counter by the given delta. Returns the new counter value
 // as well as any errors encountered while flushing the counter to storage.
 func (c *AtomicInt64Counter) Add(ctx context.Context, delta int64) (int64, error) {
+	c.mu.Lock()
+	defer c.mu.Unlock()
 	next := c.Int64Counter.Add(delta)
 	var buf [8]byte
 	binary.LittleEndian.PutUint64(buf[:], uint64(next))
@@ -53,6 +59,8 @@ func (c *AtomicInt64Counter) Add(ctx context.Context, delta int64) (int64, error
 
 // Set sets the counter to the given value.
 func (c *AtomicInt64Counter) Set(ctx context.Context, value int64) error {
+	c.mu.Lock()
+	defer c.mu.Unlock()
 	c.Int64Counter.Set(value)
 	var buf [8]byte
 	binary.LittleEndian.PutUint64(buf[:], uint64(value))
